@@ -80,6 +80,15 @@ def gen(run):
         expect = "ok" if (ign or not (bad_first or inconsistent)) else "fail-removed"
         cases.append({"tool": "max", "opts": opts, "data": data, "dims": (w, rows, 3), "expect": expect, "features": ["max", "max-header"],
                       "skip": s, "label": f"max hdr w={w} r={r} s={s} i={ign} first={first} size={size}"})
+    # MAX cube 2b: the 16-bit length field over its whole range (height derived from it): boundary values of both bytes
+    for d in core.cube(run, [("size", [0x0100, 0x00FF, 0x1800, 0x7F00, 0x7FE0, 0x8000, 0x8020, 0xC000, 0xFF00, 0xFFE0]), ("w", [256, 8])]):
+        size, w = d["size"], d["w"]
+        if (8 * size) % w or (w == 8 and size > 0x0100):
+            continue
+        rows = 8 * size // w
+        data = F.max_file(C.body_lin(size, 13, 7), size_field=size)
+        cases.append({"tool": "max", "opts": ["-w", str(w)], "data": data, "dims": (w, rows, 3), "expect": "ok", "features": ["max", "max-length-field"], "skip": None,
+                      "label": f"max length field {size:#06x} w={w}"})
     # MAX cube 3: newsroom header x skip x geometry (the -w/-r options must be ignored, -s honoured)
     for d in core.cube(run, [("colsb", [1, 2, 3, 5]), ("rows", [1, 2, 5]), ("s", [None, 0, 1, 2, 4, 7]), ("w", [None, 16]), ("r", [None, 3]), ("mode", ["bw", "rb2"])]):
         body = C.body_lin(d["colsb"] * d["rows"], 3, 1)
